@@ -397,4 +397,79 @@ def specOK (P : Params) (cfg : Cfg) (tag : Tag) (fs : List Fld) (init : Val) (s 
     (leavesOf tag fs).all fun l =>
       ambiguous s l || (expect P cfg s init l).oks.any (holds init v l)
 
+
+/-! ### several sources (Bind / BindTo, app.Context.Bind)
+
+A source takes part when the type mentions its tag. Leaf by leaf: the value is the one of the last
+source (in order) that holds the leaf's key, else the declared default, else what the leaf held
+before. Read as two rounds — defaults, then the sources without defaults — and folded over the
+admissible values per leaf. -/
+
+def explicitTag (tag : Tag) (h : FieldHdr) : Bool := !(h.tag tag).isEmpty && (h.tag tag) != B "-"
+
+mutual
+def mentionsFld (tag : Tag) (h : FieldHdr) : Ty → Bool
+  | .struct fs => h.exported && (explicitTag tag h || (h.anon && mentionsFs tag fs))
+  | .ptr (.struct fs) => h.exported && (explicitTag tag h || (h.anon && mentionsFs tag fs))
+  | _ => h.exported && explicitTag tag h
+def mentionsFs (tag : Tag) : List Fld → Bool
+  | [] => false
+  | (h, t) :: rest => mentionsFld tag h t || mentionsFs tag rest
+end
+
+structure Phase where
+  src : Src
+  defaultsOnly : Bool      -- the round of the defaults: the source counts as empty
+  noDefaults : Bool        -- the round of the values: default tags do not apply
+  deriving Repr, Inhabited
+
+def phasesOf (fs : List Fld) (srcs : List Src) : List Phase :=
+  let ss := srcs.filter (fun s => mentionsFs s.kind fs)
+  if srcs.length == 1 then ss.map (fun s => { src := s, defaultsOnly := false, noDefaults := false })
+  else ss.map (fun s => { src := { s with kvs := [] }, defaultsOnly := true, noDefaults := false }) ++
+       ss.map (fun s => { src := s, defaultsOnly := false, noDefaults := true })
+
+def Phase.leaf (ph : Phase) (l : Leaf) : Leaf := if ph.noDefaults then { l with dflt := [] } else l
+
+/-- admissible values of the leaf at `path` after the phase, from those before it -/
+def stepAdm (P : Params) (cfg : Cfg) (fs : List Fld) (path : List Nat) (ph : Phase) (A : List (Option Val)) :
+    List (Option Val) :=
+  match (leavesOf ph.src.kind fs).find? (fun l => l.path == path) with
+  | none => A
+  | some l0 =>
+    let l := ph.leaf l0
+    A.flatMap fun a =>
+      let E := expectV P cfg ph.src l (mapOf a)
+      let oks := if ph.defaultsOnly && E.oks.isEmpty then [none] else E.oks   -- an unusable default may be overridden later
+      oks.map fun o => match o with
+        | none => a
+        | some x => some x
+
+def matchesAdm (ty : Ty) (cur : Option Val) : Option Val → Bool
+  | some x => match cur with
+    | some c => normLeaf c == normLeaf x
+    | none => false
+  | none => match cur with
+    | none => true
+    | some c => normLeaf c == normLeaf (zero ty)
+
+def multiCauses (P : Params) (cfg : Cfg) (fs : List Fld) (init : Val) (srcs : List Src) : List Err :=
+  (phasesOf fs srcs).flatMap fun ph =>
+    ((leavesOf ph.src.kind fs).flatMap fun l0 =>
+      let l := ph.leaf l0
+      ((expect P cfg ph.src init l).errs ++ (if ambiguous ph.src l then [Err.conv, Err.sliceLen, Err.mapSize] else [])).map (wrapErr l.names)) ++
+    ((nodesOf ph.src.kind fs).filter (fun n => cfg.maxDepth < n.depth)).map (fun n => wrapErr n.names .depth)
+
+/-- the C04 oracle for a bind from several sources -/
+def specMulti (P : Params) (cfg : Cfg) (fs : List Fld) (init : Val) (srcs : List Src) : Obs → Bool
+  | .panic => false
+  | .err e => (srcs.isEmpty && e == Err.conv) || (multiCauses P cfg fs init srcs).contains e
+  | .ok v =>
+    let phs := phasesOf fs srcs
+    !srcs.isEmpty &&
+    phs.all (fun ph => (nodesOf ph.src.kind fs).all (fun n => n.depth ≤ cfg.maxDepth)) &&
+    (phs.flatMap fun ph => (leavesOf ph.src.kind fs).map (fun l => (l.path, l.ty))).all fun pt =>
+      phs.any (fun ph => (leavesOf ph.src.kind fs).any (fun l => l.path == pt.1 && ambiguous ph.src (ph.leaf l))) ||
+      (phs.foldl (fun A ph => stepAdm P cfg fs pt.1 ph A) [valAt init pt.1]).any (matchesAdm pt.2 (valAt v pt.1))
+
 end Rivaas.Bind.Spec
